@@ -596,7 +596,7 @@ func init() {
 	core.Register(&core.Check{
 		ID:    "C14",
 		Level: "exploration",
-		Rule:  "single-fault injection: a valid configuration for a target with 11 leaf kinds nested through a struct, a pointer, a list of structs, a map, an inline struct and a list of pointers; every leaf position (7 locations) x 21 fault kinds (object for primitive, unparsable, out of range, negative into unsigned, bad duration/overflow, bad regexp, wrong list length, element conversion, tag validator, required, Validate(), unresolvable reference plain and in a splice, cyclic reference) x {no metadata, MetaData{Source}, yaml.NewConfigWithFile} x {built directly, merged from two halves, faulty list element moved by prepend / shifted by append}: the error must be a ucfg.Error with reason and class, name exactly the faulted path, no other setting, and the source; plus a sweep of 20 API entry points x 21 names x 5 indices x 3 option sets requiring every error to be typed; non-trivial = an error was returned and judged",
+		Rule:  "single-fault injection: a valid configuration for a target with 11 leaf kinds nested through a struct, a pointer, a list of structs, a map, an inline struct and a list of pointers; every leaf position (7 locations) x 21 fault kinds (object for primitive, unparsable, out of range, negative into unsigned, bad duration/overflow, bad regexp, wrong list length, element conversion, tag validator, required, Validate(), unresolvable reference plain and in a splice, cyclic reference) x {no metadata, MetaData{Source}, yaml.NewConfigWithFile} x {built directly, merged from two halves, faulty list element moved by prepend / shifted by append}: the error must be a ucfg.Error with reason and class, name exactly the faulted path, no other setting, and the source; plus a sweep of 20 API entry points x 21 names x 5 indices x 3 option sets requiring every error to be typed; non-trivial = an error was returned and judged; plus a required setting below sections that are absent, null or empty; reference faults met while a subtree is turned into generic data (interface{}, map, list targets); lists at the root or reached with Child merged under the four list policies (every entry reports its real position); Unpacker and StringUnpacker leaves; the six getters of the sweep are judged for the path their errors name",
 		Assumptions: []string{
 			"errors of third-party decoders and of package parse (plain errors by design) are outside the clause",
 			"the path is matched as a quoted dotted path in the first line of the message (critical errors append a stack trace)",
